@@ -278,11 +278,12 @@ Section Checker.
       | IReturn => if exit_ok a then Exits else Fail
       end.
 
-    Fixpoint chk_l (a : ast) (code : list instr) {struct code} : res :=
-      match code with
-      | [] => Falls a
-      | i :: k =>
-          match
+    Fixpoint chk_i (a : ast) (i : instr) {struct i} : res :=
+      let rec := fix chk_l (a : ast) (code : list instr) {struct code} : res :=
+        match code with
+        | [] => Falls a
+        | i :: k => match chk_i a i with Falls a' => chk_l a' k | r => r end
+        end in
       match i with
       | ILock m => if mem m (a_held a) || negb (may_block (a_held a)) then Fail else Falls (set_held (m :: a_held a) a)
       | IUnlock m => if mem m (a_held a) then Falls (set_held (remove_m m (a_held a)) a) else Fail
@@ -290,26 +291,33 @@ Section Checker.
       | IDeferCall f => Falls (push_defer (DCall f) a)
       | IRead l => if a_solo a || allowed l false (a_held a) then Falls a else Fail
       | IWrite l => if a_solo a || allowed l true (a_held a) then Falls a else Fail
-      | IGo body => if good (chk_l (mkA false [] [] []) body) then Falls (set_solo false a) else Fail
+      | IGo body => if good (rec (mkA false [] [] []) body) then Falls (set_solo false a) else Fail
       | IChan _ _ => if may_block (a_held a) then Falls a else Fail
       | IWait _ => if may_block (a_held a) then Falls a else Fail
       | ICall f => if callf f (a_held a) then Falls (set_solo false a) else Fail
       | IExt _ => Falls a
-      | IIf x y => join (chk_l a x) (chk_l a y)
+      | IIf x y => join (rec a x) (rec a y)
       | ILoop body =>
-          match chk_l (set_solo false a) body with
+          match rec (set_solo false a) body with
           | Fail => Fail
           | Exits => Falls (set_solo false a)
           | Falls a' => if ast_eqb (set_solo false a) a' then Falls (set_solo false a) else Fail
           end
       | IReturn => if exit_ok a then Exits else Fail
-      end
-          with Falls a' => chk_l a' k | r => r end
       end.
+
+    Fixpoint chk_l (a : ast) (code : list instr) {struct code} : res :=
+      match code with
+      | [] => Falls a
+      | i :: k => match chk_i a i with Falls a' => chk_l a' k | r => r end
+      end.
+
+    Lemma chk_i_eq : forall a i, chk_i a i = chk1 chk_l a i.
+    Proof. intros a i. destruct i; reflexivity. Qed.
 
     Lemma chk_l_cons : forall a i k,
       chk_l a (i :: k) = match chk1 chk_l a i with Falls a' => chk_l a' k | r => r end.
-    Proof. intros a i k. destruct i; reflexivity. Qed.
+    Proof. intros a i k. cbn [chk_l]. rewrite chk_i_eq. reflexivity. Qed.
   End Body.
 
   Fixpoint callf (fuel : nat) (f : string) (h : list mutex) : bool :=
